@@ -269,6 +269,12 @@ impl R {
         };
         match (&accepted, &err_kind) {
             (Some(_), _) => {
+                if base >= 0 && !self.client_has.contains(&base) {
+                    o.fail(
+                        "C13/delta-applied-to-a-base-that-should-be-gone",
+                        format!("msg tick {} base {}: accepted, but the client should no longer hold tick {}", tick, base, base),
+                    );
+                }
                 drain(&mut self.client_has, base);
                 self.client_has.insert(tick);
                 if self.client_has.len() > 100 {
@@ -277,6 +283,9 @@ impl R {
                 }
             }
             (None, Some(manager::Error::Storage(storage::Error::UnknownSnap))) => {
+                if after.is_some() {
+                    o.fail("C13/ack-not-cleared-on-unknown-base-or-bad-checksum", format!("msg tick {} base {}: UnknownSnap, ack_tick {:?}", tick, base, after));
+                }
                 if base >= 0 && self.client_has.contains(&base) {
                     o.fail(
                         "C13/stored-base-reported-unknown",
@@ -285,7 +294,13 @@ impl R {
                 }
                 drain(&mut self.client_has, base);
             }
-            (None, Some(manager::Error::Storage(storage::Error::InvalidCrc))) | (None, Some(manager::Error::Storage(storage::Error::Unpack(_)))) => {
+            (None, Some(manager::Error::Storage(storage::Error::InvalidCrc))) => {
+                if after.is_some() {
+                    o.fail("C13/ack-not-cleared-on-unknown-base-or-bad-checksum", format!("msg tick {}: InvalidCrc, ack_tick {:?}", tick, after));
+                }
+                drain(&mut self.client_has, base);
+            }
+            (None, Some(manager::Error::Storage(storage::Error::Unpack(_)))) => {
                 drain(&mut self.client_has, base);
             }
             _ => {}
@@ -402,6 +417,10 @@ impl Runner for R {
                             // denote items of two UUID types with different sizes
                             let tag = if mixed && msg.contains("item sizes can't be mismatched") {
                                 "C13/sender-panics-on-renumbered-uuid-type"
+                            } else if msg.contains("CapacityError") {
+                                // the server glue's `unwrap` on its 64 KiB buffer (application code,
+                                // recorded as an observation, `Oversize` in the theorems)
+                                "C13-note/glue-buffer-overflow"
                             } else {
                                 "C13/sender-panics"
                             };
@@ -611,13 +630,14 @@ pub fn gen_session(rng: &mut Rng, w: &mut dyn Write, steps: usize, style: u64, m
     let mut backlog: Vec<usize> = vec![];
     let mut ack_backlog: Vec<usize> = vec![];
     let mut sent_ticks: Vec<i64> = vec![];
-    let loss = [0u64, 1, 3, 6][(style % 4) as usize]; // out of 10
+    // (the "silence" style below delivers every snapshot, to reach the eviction limit)
+    let loss = if style % 10 == 9 { 0 } else { [0u64, 1, 3, 6][(style % 4) as usize] }; // out of 10
     let reorder = style / 4 % 2 == 1;
     let garble = style % 5 == 3;
     // style "sumfix": after the first snapshot only checksum- and key-preserving changes, with
     // frequent client resets, so that only the exact-base-tick rule stands between a stale delta
     // and a wrong snapshot
-    let sumfix = style % 7 == 2;
+    let sumfix = style % 7 == 2 && style % 10 != 9;
     // style "silence": the acknowledgement path goes dead after a few steps and comes back late, so
     // that the receiver piles up more than MAX_STORED_SNAPSHOT snapshots and evicts the sender's base
     let silence = style % 10 == 9;
@@ -716,14 +736,14 @@ pub fn gen_session(rng: &mut Rng, w: &mut dyn Write, steps: usize, style: u64, m
             writeln!(w, "da {}", j).unwrap();
             sim.r.run(&["da", &j.to_string()], &mut sim.o);
         }
-        if wipe && rng.chance(1, 8) {
+        if wipe && !acks_dead && rng.chance(1, 8) {
             // an acknowledgement newer than everything the sender has: the storage is emptied and
             // the next builder comes from the free list
             let v = (tick + rng.range(1, 3)).min(i32::MAX as i64);
             writeln!(w, "ra {}", v).unwrap();
             sim.r.run(&["ra", &v.to_string()], &mut sim.o);
         }
-        if rng.chance(1, 25) {
+        if rng.chance(1, 25) && !acks_dead {
             // an acknowledgement for something else entirely
             let v = match rng.below(4) {
                 0 => -1,
@@ -750,9 +770,9 @@ impl Domain for D {
     fn gen(&self, tier: &str, seed: u64, w: &mut dyn Write) {
         let thorough = tier == "thorough";
         let mut rng = Rng::new(seed ^ 0x736d6772);
-        let sessions = if thorough { 800 } else { 120 };
+        let sessions = if thorough { 800 } else { 90 };
         for s in 0..sessions {
-            let steps = if s % 10 == 9 { 170 } else { rng.range(5, 40) as usize };
+            let steps = if s % 10 == 9 { 130 } else { rng.range(5, 40) as usize };
             gen_session(&mut rng, w, steps, s as u64, false, s % 6 == 5);
         }
         // UUID types of different sizes: reaches D25 (open finding)
